@@ -153,7 +153,7 @@ def parse_dump(d):
 
 def run(ctx):
     from translate import alglists  # noqa: F401  (keeps Generated/ in step for the shared lake build)
-    ctx.lean_stage(["C19"], translators=[alglists.run])
+    ctx.lean_stage(["C19"])
     bdir = ctx.repo_stage()
     if bdir:
         exe, ok, log = build_harness("util", bdir)
